@@ -87,7 +87,7 @@ ABSTRACT = {"AlgebraicLeaf", "Leaf", "QuotientBase", "_ShiftOperator",
             "Expression"}
 CONCRETE = sorted(n for n in NODE_TABLE if n not in ABSTRACT)
 
-CONTAINER_TAGS = ("Tuple", "List", "NpArray")
+CONTAINER_TAGS = ("Tuple", "List", "NpArray", "ParsedList", "ParsedTuple")
 LEAF_TAGS = ("Var", "Const", "Frac")
 ALL_TAGS = set(NODE_TABLE) | set(CONTAINER_TAGS) | set(LEAF_TAGS) | {
     "CallWithKwargsDict"}
@@ -170,6 +170,11 @@ class Builder:
             return tuple(self(c) for c in s[1])
         if tag == "List":
             return [self(c) for c in s[1]]
+        if tag in ("ParsedList", "ParsedTuple"):
+            # the containers the parser leaves in expressions for [a, b] and (a, b)
+            from pymbolic.parser import FinalizedList, FinalizedTuple
+            return (FinalizedList if tag == "ParsedList" else FinalizedTuple)(
+                self(c) for c in s[1])
         if tag == "NpArray":
             arr = np.empty(len(s[1]), dtype=object)
             for i, c in enumerate(s[1]):
